@@ -227,6 +227,7 @@ def run(ctx: Any, prog: Program) -> None:
     ctx.rule('C04.A10', 'Euler components of two rotations are never simply added, except when the rotation applied second is a pure yaw', floor=1)
     ctx.rule('C04.A7', 'in-place kernels are alias safe, or are only called with a fresh receiver (m @= m computes m @ m)', floor=4)
 
+    a12_inplace_identity(ctx, mt)
     a8_pivoting(ctx, mt)
     a11_elimination(ctx, mt)
     a9_operator_purity(ctx, mt)
@@ -918,6 +919,41 @@ def a7_alias_safety(ctx: Any, prog: Program, mt: Any, pyx: Any) -> None:
         raise AnalysisError(f'A7: only {n_calls} mat_mul call sites found in _math.pyx')
 
 
+def a12_inplace_identity(ctx: Any, mt: Any) -> None:
+    """`x @= r` on a mutable object changes THAT object: every other reference to it (an alias, a list element, an attribute) has to see the
+    rotated value.  The written-out in-place operators of the mutable classes therefore return `self` (or NotImplemented), or the result of
+    a method that fills and returns the object it was handed - with `self` in that position."""
+    ctx.rule('C04.A12', 'in-place operators of the mutable classes return the object they were applied to', floor=3)
+    n = 0
+    for cls in ('Vec', 'Matrix', 'Angle'):
+        for mname, fn in mt.methods(cls).items():
+            if not (mname.startswith('__i') and mname.endswith('__') and mname not in ('__init__', '__iter__', '__index__', '__int__', '__invert__')):
+                continue
+            me = fn.args.args[0].arg
+            for r in [x for x in walk_no_nested(fn) if isinstance(x, ast.Return) and x.value is not None]:
+                v = r.value
+                n += 1
+                ok = (isinstance(v, ast.Name) and v.id in (me, 'NotImplemented'))
+                why = f'`{U(v)[:60]}`'
+                if not ok and isinstance(v, ast.Call) and isinstance(v.func, ast.Attribute) and any(isinstance(a, ast.Name) and a.id == me for a in v.args):
+                    # a method that returns the parameter `self` is passed for
+                    pos = next(i for i, a in enumerate(v.args) if isinstance(a, ast.Name) and a.id == me)
+                    cands = [f for q, fl in mt.all_funcs().items() if q.split('.')[-1] == v.func.attr and '.' in q for f in fl if len(f.args.args) > pos + 1]
+                    if cands:
+                        fills = all(all(isinstance(x.value, ast.Name) and x.value.id == f.args.args[pos + 1].arg for x in walk_no_nested(f) if isinstance(x, ast.Return) and x.value is not None) for f in cands)
+                        ok = fills
+                        why = f'`{U(v)[:60]}`, and {v.func.attr}() ' + ('returns that argument' if fills else 'builds and returns another object')
+                    else:
+                        ctx.shape('C04.A12', False, mt, r, f'{cls}.{mname}: method {v.func.attr}() not found', func=f'{cls}.{mname}', text=f'{cls}.{mname} returns self')
+                        continue
+                elif not ok and not isinstance(v, (ast.Name, ast.Call)):
+                    ctx.shape('C04.A12', False, mt, r, f'{cls}.{mname} returns `{U(v)[:50]}`', func=f'{cls}.{mname}', text=f'{cls}.{mname} returns self')
+                    continue
+                ctx.check('C04.A12', ok, mt, r, f'{cls}.{mname} returns {why} instead of the object it was applied to: `x {mname[3:-2]}= y` then only rebinds the name, and every other reference to the '
+                          'object keeps the old value', func=f'{cls}.{mname}', text=f'{cls}.{mname} returns self')
+    ctx.shape('C04.A12', n >= 3, mt, mt.tree, f'{n} returns of in-place operators found', text='in-place operators')
+
+
 def analyse_to_angle(ctx: Any, rule: str, relpath: str, qual: str, body: List[ast.stmt], rename: Any, FA: Dict[str, Poly],
                      fields: Dict[str, str], mod: Any, node: Any) -> Dict[str, Any]:
     """Checks the atan2 argument pairs of a matrix->angle function; returns a comparable summary."""
@@ -1014,6 +1050,7 @@ def analyse_to_angle(ctx: Any, rule: str, relpath: str, qual: str, body: List[as
 
 
 MUTANTS = [
+    {'id': 'angle_imatmul_returns_new_angle', 'file': 'math.py', 'find': "            mat = Py_Matrix.from_angle(self)\n            mat @= other\n            return mat._to_angle(self)  # Inplace", 'replace': "            return other._rotate_angle(self, Py_Angle)", 'expect': 'C04.A12'},
     {'id': 'gimbal_yaw_from_forward_axis_near_pole', 'file': 'math.py', 'find': "            ang._yaw = math.degrees(math.atan2(-left_x, left_y)) % 360.0 % 360.0\n", 'replace': "            if horiz_dist > 1e-9:\n                ang._yaw = math.degrees(math.atan2(for_y, for_x)) % 360.0 % 360.0\n            else:\n                ang._yaw = math.degrees(math.atan2(-left_x, left_y)) % 360.0 % 360.0\n", 'expect': 'C04.A5'},
     {'id': 'vec_rot_skips_near_origin', 'file': 'math.py', 'find': "    def _vec_rot(self, vec: 'Vec') -> None:", 'replace': "    def _vec_rot(self, vec: 'Vec') -> None:\n        if vec == (0.0, 0.0, 0.0):\n            return", 'expect': 'C04.A3'},
     {'id': 'to_angle_pitch_by_asin', 'file': 'math.py', 'find': "        if horiz_dist > 0.001:\n            ang._yaw = math.degrees(math.atan2(for_y, for_x)) % 360.0 % 360.0\n            ang._pitch = math.degrees(math.atan2(-for_z, horiz_dist)) % 360.0 % 360.0", 'replace': "        if horiz_dist > 0.001:\n            ang._yaw = math.degrees(math.atan2(for_y, for_x)) % 360.0 % 360.0\n            ang._pitch = math.degrees(math.asin(-for_z)) % 360.0 % 360.0", 'expect': 'C04.A5'},
